@@ -11,13 +11,20 @@ open Emitter
 
 /-! ## base64 (URL alphabet, no padding) -/
 
-/-- the alphabet of `decodeMap`'s `init` (regenerated from base64.go). -/
-def alphabet : Bytes := Generated.base64Alphabet
+/-- the URL-safe alphabet of encoding/base64 (`RawURLEncoding`, standard library) -/
+def alphabet : Bytes :=
+  [65, 66, 67, 68, 69, 70, 71, 72, 73, 74, 75, 76, 77, 78, 79, 80, 81, 82, 83, 84, 85, 86, 87, 88, 89, 90,
+   97, 98, 99, 100, 101, 102, 103, 104, 105, 106, 107, 108, 109, 110, 111, 112, 113, 114, 115, 116, 117,
+   118, 119, 120, 121, 122, 48, 49, 50, 51, 52, 53, 54, 55, 56, 57, 45, 95]
 
 def encChar (i : Nat) : UInt8 := alphabet.getD i 0
 
-/-- `decodeMap[c]`: index in the alphabet or 0xFF -/
-def decodeMap (c : UInt8) : UInt8 :=
+/-- `decodeMap[c]` of base64.go: the 256-entry table as `init()` leaves it (regenerated from the
+running code on every check) -/
+def decodeMap (c : UInt8) : UInt8 := Generated.base64DecodeMap.getD c.toNat 0xFF
+
+/-- what the table should be: index in the alphabet, 0xFF for every other byte -/
+def decodeMapSpec (c : UInt8) : UInt8 :=
   let i := alphabet.idxOf c
   if i < 64 then UInt8.ofNat i else 0xFF
 
